@@ -25,7 +25,7 @@ def balance_track(hist: Sequence[Tuple[Any, ...]]) -> Tuple[bool, Fraction]:
             over = True
         k = sym[0]
         if k in ("B", "E"):
-            bal += Fraction(sym[2]) - (Fraction(sym[5]) if k == "B" and len(sym) > 5 else 0)
+            bal += Fraction(sym[2]) - (Fraction(sym[5]) if k == "B" and len(sym) > 5 and sym[5] else 0)
         elif k == "S":
             fee = Fraction(sym[5])
             if sym[2] == H.ALL:
@@ -48,7 +48,7 @@ def enabled(hist: Sequence[Tuple[Any, ...]]) -> bool:
         sym = item[0]
         k = sym[0]
         if k in ("B", "E"):
-            bal += Fraction(sym[2]) - (Fraction(sym[5]) if k == "B" and len(sym) > 5 else 0)
+            bal += Fraction(sym[2]) - (Fraction(sym[5]) if k == "B" and len(sym) > 5 and sym[5] else 0)
         elif k == "S":
             fee = Fraction(sym[5])
             if sym[2] == H.ALL:
